@@ -774,6 +774,9 @@ def m_len(eng, args, kwargs, st, node):
         return [(VInt(IntV(len(v.items))), st)]
     if isinstance(v, VRef):
         o = st.heap[v.loc]
+        from . import contracts as _C
+        if isinstance(o, HInst) and o.cls in _C.ASLIST:
+            return m_len(eng, [o.fields[_C.ASLIST[o.cls]]], kwargs, st, node)
         if isinstance(o, HPyList):
             return [(VInt(IntV(len(o.items))), st)]
         if isinstance(o, HDict):
